@@ -573,7 +573,8 @@ def random_rotations(rep, shells, npairs, nf, rng):
 
 def cache_tolerance(rep, shells, rng):
     """numeric only: composition law for rotations that nearly coincide, asked of ONE rotator instance (as Dwann does for the
-    operations and local bases of one projection).  D(A) D(B) must equal D(AB) also when AB is within 1e-4 of A"""
+    operations and local bases of one projection).  D(A) D(B) must equal D(AB) to 1e-9 also when AB differs from A by only
+    5e-5 .. 5e-6 (deciding case for the cache tolerance of the rotator: 1e-4 before repair 94903986, 1e-8 since)"""
     nprs = np.random.RandomState(rng.randrange(2**31))
 
     def rz(t):
@@ -599,8 +600,8 @@ def cache_tolerance(rep, shells, rng):
                 rep.violation("OrbitalRotator:cache_tolerance",
                               dict(shell=sh, A=f"rotation about z by {t!r}", B=f"rotation about z by {eps!r}", deviation_same_instance=dv,
                                    deviation_fresh_instance=dvf, same_object_returned=bool(np.array_equal(Ms[0], Ms[2])),
-                                   what="one OrbitalRotator instance returns for A.B the cached matrix of A (matrices closer than 1e-4 are "
-                                        "identified): D(A) D(B) differs from D(AB) by about |B - 1|; a fresh instance is exact",
+                                   what="one OrbitalRotator instance returns for A.B the cached matrix of a nearby rotation (its cache identifies "
+                                        "matrices closer than its tolerance): D(A) D(B) differs from D(AB) by about |B - 1|; a fresh instance is exact",
                                    reproduce="from wannierberri.symmetry.orbitals import OrbitalRotator; import numpy as np; "
                                              "rz=lambda t: np.array([[np.cos(t),-np.sin(t),0],[np.sin(t),np.cos(t),0],[0,0,1.]]); r=OrbitalRotator(); "
                                              "a=r('p',rot_cart=rz(0.3)); b=r('p',rot_cart=rz(0.30005)); print(a is b, "
